@@ -667,6 +667,7 @@ def impl_nested_swap(c):
         a = cls(Saving(L2Cost(param=c["p0"])))
         if c["used_before"]:
             a.fit(X)
+            a.predict(X)  # CAPA / MVCAPA fit their savings when they predict
         a.set_params(collective_saving__baseline_cost=GaussianVarCost(param=(c["p1"], 1.5)))
         b = cls(Saving(GaussianVarCost(param=(c["p1"], 1.5))))
         a.fit(X)
@@ -687,8 +688,12 @@ def impl_nested(c):
     new = c["p1"] if c["cost"] == "l2" else (c["p1"], 1.5)
     try:
         a, b = _mk_nested(c, c["p0"]), _mk_nested(c, c["p1"])
-        if c["used_before"]:
+        if c["used_before"]:  # really used: some detectors fit their scorers only when they predict
             a.fit(X)
+            if c["kind"] in ("loc", "sav", "chg"):
+                a.evaluate(np.array([{"loc": [2, 6, 10, 15], "sav": [3, 12], "chg": [2, 9, 17]}[c["kind"]]]))
+            else:
+                a.predict(X)
         a.set_params(**{key: new})
         a.fit(X)
         b.fit(X)
